@@ -555,4 +555,48 @@ def cycles (ops : FloatOps F) : Nat → Facts F → List (Rule F) → PassResult
     if p.error.isSome || p.fired == 0 then p
     else p.andThen (cycles ops n p.final rs)
 
+/-! ### the caller's side: engine construction and fact-store operations between `execute` calls -/
+
+/-- `EngineConfig::default().max_cycles` — what `RustRuleEngine::new` runs with -/
+def defaultMaxCycles : Nat := 100
+
+/-- `HashMap::remove` on the association list (every entry of the key) -/
+def removeKV {α} : List (Str × α) → Str → List (Str × α)
+  | [], _ => []
+  | (k, w) :: rest, key => if k = key then removeKV rest key else (k, w) :: removeKV rest key
+
+/-- what a caller does to the `Facts` object between two `execute` calls -/
+inductive CallerOp (F : Type) where
+  /-- `Facts::add_value(k, v)` / `Facts::add(k, serialisable)` -/
+  | add (k : Str) (v : Val F)
+  /-- `Facts::set(k, v)` (flat key) -/
+  | set (k : Str) (v : Val F)
+  /-- `Facts::set_nested(path, v)`; an `Err` leaves the store as it was -/
+  | setNested (path : Str) (v : Val F)
+  /-- `Facts::remove(k)` -/
+  | remove (k : Str)
+  /-- `Facts::clear()` -/
+  | clear
+
+def applyCaller (f : Facts F) : CallerOp F → Facts F
+  | .add k v => insertKV f k v
+  | .set k v => set f k v
+  | .setNested p v =>
+    match setNested f p v with
+    | some f' => f'
+    | none => f
+  | .remove k => removeKV f k
+  | .clear => []
+
+def applyCallerOps (f : Facts F) (ops : List (CallerOp F)) : Facts F := ops.foldl applyCaller f
+
+/-- several `execute` calls on ONE engine object; between two calls the caller edits the store (or
+hands the same content over in a new `Facts` object — `merge`, `snapshot`/`restore`,
+`to_context`/`from_context`, which carry exactly the content). One result per call. -/
+def calls (ops : FloatOps F) (n : Nat) (rs : List (Rule F)) : Facts F → List (List (CallerOp F)) → List (PassResult F)
+  | f, [] => [cycles ops n f rs]
+  | f, ph :: rest =>
+    let r := cycles ops n f rs
+    r :: calls ops n rs (applyCallerOps r.final ph) rest
+
 end C01
